@@ -72,6 +72,7 @@ def free_real_vars(terms):
 # ---------------------------------------------------------------- rational normal form (query simplification done by z3's rewriter)
 
 _ONE = z3.RealVal(1)
+SOM_BLOWUP = 10**7      # bound on the growth of sum-of-monomials expansions inside z3.simplify (C code that a wall-clock budget cannot interrupt)
 
 def _factors(t, out):
     '''split a product term into its literal factors: {term id: [term, multiplicity]}; numerals are dropped (non-zero numerals do not matter for a divisor)'''
@@ -153,7 +154,7 @@ def cross_difference(ta, tb, cache):
     '''(num_a * (lcm/den_a) - num_b * (lcm/den_b) in sum-of-monomials form, {id: divisor term})'''
     na, da = ratnorm(ta, cache); nb, db = ratnorm(tb, cache)
     l = _lcm([da, db])
-    diff = z3.simplify(_prod(na, _missing(l, da)) - _prod(nb, _missing(l, db)), som=True, som_blowup=10**7, flat=True, sort_sums=True)
+    diff = z3.simplify(_prod(na, _missing(l, da)) - _prod(nb, _missing(l, db)), som=True, som_blowup=SOM_BLOWUP, flat=True, sort_sums=True)
     return diff, {k: t for k, (t, m) in l.items()}
 
 RAT_STATS = dict(normalised_to_zero=0, polynomial_form_decided=0)
